@@ -9,9 +9,10 @@
        whenever solve_basic m b = Ok x, with (m', b') the COMPUTED result of gauss_with_pivot m b:
        (U + dU) x = b', |dU| <= gam n |U|, U = upper triangle of m'.
 
-   NOT covered (stated, not proved): the backward error of the factorisation / elimination itself, i.e. how far
-   L U is from P m -- that is where the growth factor of Gaussian elimination with partial pivoting enters
-   (Higham Thm 9.3, 9.4); and that IEEE binary64 obeys the standard model absent underflow/overflow. *)
+   The backward error of the factorisation / elimination itself -- how far L U is from P m -- is proved separately:
+   Proofs/RoundLUError.v (Higham Thm 9.3) and, combined with the statements here, Proofs/RoundSolveLU.v and
+   Proofs/RoundSolveBasic.v (Thm 9.4).  Not covered anywhere: the comparison of |L^||U^| with |A| (growth factor), and
+   that IEEE binary64 obeys the standard model absent underflow/overflow beyond the functions of Proofs/Round*Float.v. *)
 From Coq Require Import List Arith Lia Reals Lra Psatz Bool.
 From OV Require Import Base.Panic Base.Arith Base.RoundModel Model.Vector Model.Matrix Model.Solve
   Proofs.Matrix Proofs.LUPrim Proofs.LUSolve Proofs.RoundDot Proofs.RoundMatvec Proofs.RoundBacksolve Proofs.RoundLUShape.
